@@ -27,9 +27,12 @@ ASSUMPTIONS = [
     'pair on an already recorded label (the commands themselves warn that '
     'anything else desynchronises the log)',
 ]
-FLOORS = {'quick': {'nontrivial': 10, 'runs': 100, 'labels_checked': 100},
+FLOORS = {'quick': {'nontrivial': 10, 'runs': 100, 'labels_checked': 100,
+                    'wipe_commands': 3, 'mark_commands': 3,
+                    'marker_counts_checked': 60},
           'thorough': {'nontrivial': 150, 'runs': 1500,
-                       'labels_checked': 1500}}
+                       'labels_checked': 1500, 'wipe_commands': 40,
+                       'mark_commands': 40, 'marker_counts_checked': 800}}
 SIZES = {'quick': 32, 'thorough': 400}
 TIMEOUT = {'quick': 170, 'thorough': 1700}
 
@@ -61,22 +64,87 @@ def run_case(desc):
     apps = ('app1', 'app2')
     n = rng.randint(2, 3)
     h = histories.gen_history(rng, n, apps=apps)
+    # data evolutions: raw SQL leaving one marker row per execution, alone
+    # (when the step has no schema edit for the app) or next to schema
+    # mutations.  Their executions are counted in the database itself.
+    for _x in range(rng.randint(0, 2)):
+        # a version that only ships data evolutions (models unchanged)
+        pos = rng.randint(1, len(h.specs) - 1)
+        h.specs.insert(pos, S.clone(h.specs[pos - 1]))
+        h.steps.insert(pos - 1, [])
+        h.texts.insert(pos - 1, {'__data__': True})
+    n = len(h.specs) - 1
+    data_labels, data_only = set(), set()
+    count = {a: 0 for a in apps}
+    for texts in h.texts:
+        for a in apps:
+            had = bool(texts.get(a))
+            if rng.random() < (0.8 if texts.get('__data__') else 0.4):
+                lab = 'e%d' % (count[a] + 1)
+                texts.setdefault(a, []).append(
+                    'SQLMutation(%r, ["INSERT INTO vmarker (label) VALUES '
+                    "('%s:%s')\"], lambda simulation: None)"
+                    % ('data_%s_%s' % (a, lab), a, lab))
+                data_labels.add((a, lab))
+                if not had:
+                    data_only.add((a, lab))
+            if texts.get(a):
+                count[a] += 1
+    for texts in h.texts:
+        texts.pop('__data__', None)
     proj = projlab.Project()
-    items, stats = [], {'schedules': 1, 'runs': 0}
+    items, stats = [], {'schedules': 1, 'runs': 0,
+                        'data_evolutions': len(data_labels)}
     executed = {}            # (app, label) -> times executed
     recorded_by_run = {}     # (app, label) -> run index that recorded it
+    marker_expected = {}     # 'app:label' -> rows the executions must leave
     schedule = []
+    cmd_errors = []
     try:
         labels_at = histories.write_project(proj, h, apps)
+        # a stale app for the purge step: installed first, then taken out
+        proj.write_app('app3', [{'Old': {'fields': [
+            ['v', {'kind': 'Integer'}]], 'meta': {}}}], [], nv=[0])
         db = 'db.sqlite3'
+        import sqlite3
+        con = sqlite3.connect(proj.path(db))
+        con.execute('CREATE TABLE vmarker (label varchar(40))')
+        con.commit()
+        con.close()
+
+        def marker_rows():
+            con = sqlite3.connect(proj.path(db))
+            try:
+                return dict(con.execute(
+                    'SELECT label, COUNT(*) FROM vmarker GROUP BY label'))
+            finally:
+                con.close()
         ver = {a: rng.randint(0, n - 1) for a in apps}   # per-app version
+        inst = {'apps': list(apps) + ['app3']}
 
         def visible(app, v):
             return [(app, 'e%d' % (k + 1)) for k in range(labels_at[app][v])]
 
-        def do_run(kind, apps_sel=None, fault_at=None, action=None):
+        def command(action, a, l):
+            """wipe-evolution / mark-evolution-applied on one label; the
+            command itself must succeed (else the step observed nothing)."""
             stats['runs'] += 1
-            args = {}
+            av = dict(ver)
+            av['app3'] = 0
+            ev = proj.run(action, db=db, app_versions=av, apps=inst['apps'],
+                          args={'app': a, 'labels': [l]})
+            if ev.get('driver_error') or not ev['outcome']['ok']:
+                cmd_errors.append('%s %s.%s: %s' % (
+                    action, a, l, str(ev.get('outcome') or ev)[:300]))
+                return False
+            stats[action + '_commands'] = stats.get(
+                action + '_commands', 0) + 1
+            return True
+
+        def do_run(kind, apps_sel=None, fault_at=None, action=None,
+                   extra_args=None):
+            stats['runs'] += 1
+            args = dict(extra_args or {})
             if apps_sel:
                 args['apps'] = list(apps_sel)
             if fault_at:
@@ -85,7 +153,10 @@ def run_case(desc):
                              rng.choice(['evolve_api', 'evolve_cmd']))
             before_rows = proj.evolution_rows(db)
             before_versions = [r['id'] for r in proj.version_rows(db)]
-            ev = proj.run(act, db=db, app_versions=dict(ver), args=args)
+            av = dict(ver)
+            av['app3'] = 0
+            ev = proj.run(act, db=db, app_versions=av, args=args,
+                          apps=inst['apps'])
             schedule.append({'kind': kind, 'ver': dict(ver),
                              'apps': apps_sel, 'fault_at': fault_at,
                              'action': act})
@@ -107,12 +178,25 @@ def run_case(desc):
             for lab in ex:
                 if lab in recorded_by_run:
                     items.append(dict(ctx, type='RECORDED_LABEL_EXECUTED',
-                                      label=list(lab)))
+                                      label=list(lab),
+                                      how=str(recorded_by_run[lab])))
+                if ok and lab in data_labels:
+                    mk = '%s:%s' % lab
+                    marker_expected[mk] = marker_expected.get(mk, 0) + 1
                 if ok or fault_at is None:
                     executed[lab] = executed.get(lab, 0) + 1
                     if executed[lab] > 1:
                         items.append(dict(ctx, type='EXECUTED_TWICE',
                                           label=list(lab)))
+            if ok:
+                # the database's own count of executions
+                got = marker_rows()
+                stats['marker_counts_checked'] = stats.get(
+                    'marker_counts_checked', 0) + 1
+                if got != marker_expected:
+                    items.append(dict(ctx, type='MARKER_ROWS_DIFFER',
+                                      expected=dict(marker_expected),
+                                      got=got))
             if not ok:
                 if fault_at is None:
                     items.append(dict(ctx, type='RUN_FAILED',
@@ -165,55 +249,123 @@ def run_case(desc):
 
         # ---- the schedule
         ev = do_run('fresh')
+        inst['apps'] = list(apps) if rng.random() < 0.5 else inst['apps']
         fresh_ex = executed_labels(ev) if ev else []
         if fresh_ex:
             items.append({'type': 'FRESH_INSTALL_EXECUTED', 'run': 0,
                           'labels': [list(x) for x in fresh_ex]})
         steps = rng.randint(3, 7)
+        late_fault = rng.random() < 0.4
+        cap = {a: n for a in apps}
+        if late_fault:
+            cap[rng.choice(apps)] = n - 1
         for _ in range(steps):
             choices = ['noop']
-            if any(ver[a] < n for a in apps):
+            if any(ver[a] < cap[a] for a in apps):
                 choices += ['upgrade_all'] * 3 + ['upgrade_one'] * 2 + \
                     ['fault_retry']
-            if recorded_by_run:
+            if [l for l in recorded_by_run if l[0] in apps]:
                 choices.append('wipe_mark')
+            # hand-marking a pending data-only evolution that is not the
+            # next one in the sequence (log no longer a prefix of SEQUENCE)
+            ahead = []
+            for a in apps:
+                for v2 in range(ver[a] + 1, cap[a] + 1):
+                    lo, hi = labels_at[a][ver[a]], labels_at[a][v2]
+                    for j in range(lo + 2, hi + 1):
+                        lab = (a, 'e%d' % j)
+                        if lab in data_only and lab not in recorded_by_run:
+                            ahead.append((a, v2, lab))
+            now = [(x, y) for x, y, _v in proj.evolution_rows(db)]
+            ahead = [t for t in ahead if now.count(t[2]) == 0]
+            wipable = sorted(l for l in recorded_by_run
+                             if l in data_only and l[0] in apps and
+                             now.count(l) == 1)
+            if ahead:
+                choices += ['mark_ahead'] * 6
+            if wipable:
+                choices.append('wipe_only')
             kind = rng.choice(choices)
+            if kind == 'mark_ahead':
+                a, v2, lab = rng.choice(ahead)
+                ver[a] = v2
+                command('mark', a, lab[1])
+                schedule.append({'kind': 'mark_ahead', 'label': list(lab)})
+                rows = [(x, y) for x, y, _v in proj.evolution_rows(db)]
+                if rows.count(lab) != 1:
+                    items.append({'type': 'MARK_COUNT', 'label': list(lab),
+                                  'count': rows.count(lab)})
+                else:
+                    recorded_by_run[lab] = 'marked'
+                    stats['marked_ahead'] = stats.get('marked_ahead', 0) + 1
+                do_run('upgrade_after_mark')
+                continue
+            if kind == 'wipe_only':
+                # un-recording a data evolution makes it pending again
+                a, l = rng.choice(wipable)
+                command('wipe', a, l)
+                schedule.append({'kind': 'wipe_only', 'label': [a, l]})
+                rows = [(x, y) for x, y, _v in proj.evolution_rows(db)]
+                if rows.count((a, l)) != 0:
+                    items.append({'type': 'WIPE_COUNT', 'label': [a, l],
+                                  'count': rows.count((a, l))})
+                else:
+                    recorded_by_run.pop((a, l), None)
+                    executed.pop((a, l), None)
+                    stats['wiped'] = stats.get('wiped', 0) + 1
+                do_run('upgrade_after_wipe', action='evolve_api')
+                continue
             if kind == 'noop':
                 do_run('noop')
             elif kind == 'upgrade_all':
                 for a in apps:
-                    ver[a] = min(n, ver[a] + rng.randint(0, 2))
+                    ver[a] = min(cap[a], ver[a] + rng.randint(0, 2))
                 do_run('upgrade_all')
             elif kind == 'upgrade_one':
-                a = rng.choice([x for x in apps if ver[x] < n])
-                ver[a] = min(n, ver[a] + rng.randint(1, 2))
+                a = rng.choice([x for x in apps if ver[x] < cap[x]])
+                ver[a] = min(cap[a], ver[a] + rng.randint(1, 2))
                 do_run('upgrade_one', apps_sel=[a])
             elif kind == 'fault_retry':
                 for a in apps:
-                    ver[a] = min(n, ver[a] + 1)
+                    ver[a] = min(cap[a], ver[a] + 1)
                 # k=1: nothing of the run is committed yet (later crash
                 # points and KF-C07-EARLIER-BATCHES-COMMITTED are C07's)
                 do_run('fault', fault_at=1)
                 do_run('retry')
             elif kind == 'wipe_mark':
-                a, l = rng.choice(sorted(recorded_by_run))
-                if a in apps:
-                    stats['runs'] += 2
-                    proj.run('wipe', db=db, app_versions=dict(ver),
-                             args={'app': a, 'labels': [l]})
-                    proj.run('mark', db=db, app_versions=dict(ver),
-                             args={'app': a, 'labels': [l]})
+                a, l = rng.choice(sorted(
+                    x for x in recorded_by_run if x[0] in apps))
+                now = [(x, y) for x, y, _v in proj.evolution_rows(db)]
+                if now.count((a, l)) == 1:
+                    command('wipe', a, l)
+                    command('mark', a, l)
                     schedule.append({'kind': 'wipe_mark', 'label': [a, l]})
                     rows = [(x, y) for x, y, _v in proj.evolution_rows(db)]
                     if rows.count((a, l)) != 1:
                         items.append({'type': 'WIPE_MARK_COUNT',
                                       'label': [a, l],
                                       'count': rows.count((a, l))})
+        # ---- last step (sometimes): a run whose *last* task fails.  The
+        # stale app is purged in the same run as pending evolutions and the
+        # DROP of its table fails: nothing of that run may be recorded.
+        # (No retry: what the earlier, committed tasks left behind is C07's
+        # matter, KF-C07-EARLIER-BATCHES-COMMITTED.)
+        if late_fault and any(ver[a] < n for a in apps):
+            for a in apps:
+                ver[a] = min(n, ver[a] + rng.randint(1, 2))
+            inst['apps'] = list(apps)
+            stats['late_fault_runs'] = 1
+            ev = do_run('late_fault', fault_at=1, extra_args={
+                'purge': True, 'force': True, 'no_facts_before': True,
+                'fault_re': r'DROP TABLE "app3_old"'})
+            if ev is not None and not ev.get('fault_fired'):
+                stats['late_fault_not_fired'] = 1
     finally:
         proj.cleanup()
     nontrivial = bool(executed) and bool(
         set(recorded_by_run) - set(executed))
     return {'key': S.canon([h.specs, schedule]), 'nontrivial': nontrivial,
             'items': items, 'stats': stats,
+            'harness_error': '; '.join(cmd_errors)[:600] or None,
             'case': {'steps': h.steps, 'schedule': schedule,
                      'labels_at': labels_at}}
